@@ -245,10 +245,10 @@ struct C20
     else if( !fx_isnan(got) ) lv.hit(c_rad_nan, order, [=]{ return ex1(s, "angle_to_radians", TN[t], {{"d",to_s128(d)}}, "NaN", to_s(got), "rad", {to_s(t), to_su(bits)}); });
     }
   // type code 8 = float, 10 = fixed_t
-  static bool representable(int t, int d) { if( t < 8 ) return static_cast<i128>(d) >= t_min(t) && static_cast<i128>(d) <= t_max(t); return true; }
+  static bool representable(int t, int d) { if( is_int_type(t) ) return static_cast<i128>(d) >= t_min(t) && static_cast<i128>(d) <= t_max(t); return true; }
   static u64 carry(int t, int d)
     {
-    if( t < 8 ) return static_cast<u64>(static_cast<i64>(d)) & t_mask(t);
+    if( is_int_type(t) ) return static_cast<u64>(static_cast<i64>(d)) & t_mask(t);
     if( t == T_F32 ) { float f = static_cast<float>(d); uint32_t b; std::memcpy(&b, &f, 4); return b; }
     return static_cast<u64>(static_cast<i64>(d) * 65536);
     }
@@ -269,15 +269,15 @@ void explore20(Options const& o, std::vector<Shim*> const& shims, std::vector<Sh
   C20 c(rec);
   std::vector<u64> v64[2] = { int_type_values(T_I64, th ? 8 : 6, 4, th ? 4096 : 512), int_type_values(T_U64, th ? 8 : 6, 4, th ? 4096 : 512) };
   for( int k = 0; k < 2; ++k ) for( i64 d = -1024; d <= 1024; ++d ) v64[k].push_back(static_cast<u64>(d));
-  const int XT[10] = { T_I8, T_I16, T_I32, T_I64, T_U8, T_U16, T_U32, T_U64, T_F32, 10 };
+  const int XT[12] = { T_I8, T_I16, T_I32, T_I64, T_U8, T_U16, T_U32, T_U64, T_LL, T_ULL, T_F32, T_FIXED };
   rec.note("alphabet", "angle_to_radians: EVERY value of the 8- and 16-bit types; every value of int32/uint32 on " + std::string(th ? "every configuration" : "two configurations and windows elsewhere") + "; " + std::to_string(v64[0].size())
-           + " S-shaped/boundary values of the 64-bit types; sin/cos/tan_angle: every integer d in [-360, 360] carried by each of 10 argument types (where representable), compared with the bound and with the int32_t result");
+           + " S-shaped/boundary values of the 64-bit types; sin/cos/tan_angle: every integer d in [-360, 360] carried by each of 12 argument types (where representable), compared with the bound and with the int32_t result");
   for( size_t ci = 0; ci < shims.size(); ++ci )
     {
     Shim* s = shims[ci];
     u64 ob = static_cast<u64>(ci) << 56;
     bool full32 = th || ci == 1 || ci == 6 % shims.size();
-    for( int t = 0; t < 8; ++t )
+    for( int t : INT_TYPES )
       {
       u64 ob2 = ob | (static_cast<u64>(t) << 52);
       if( TBITS[t] <= 32 )
@@ -300,7 +300,7 @@ void explore20(Options const& o, std::vector<Shim*> const& shims, std::vector<Sh
         }
       else
         {
-        std::vector<u64> const& vs = v64[t == T_I64 ? 0 : 1];
+        std::vector<u64> const& vs = v64[t_signed(t) ? 0 : 1];
         LocalViol lv(rec);
         for( size_t i = 0; i < vs.size(); ++i ) c.radians(s, t, vs[i], s->fm_angle_to_radians(t, vs[i]), ob2 | i, lv);
         rec.add_states(vs.size(), vs.size(), vs.size());
@@ -311,7 +311,7 @@ void explore20(Options const& o, std::vector<Shim*> const& shims, std::vector<Sh
     for( int fn = 0; fn < A_COUNT; ++fn ) for( int d = -360; d <= 360; ++d )
       {
       i64 ref = s->fm_xangle(fn, T_I32, C20::carry(T_I32, d));
-      for( int ti = 0; ti < 10; ++ti )
+      for( int ti = 0; ti < 12; ++ti )
         {
         int t = XT[ti];
         if( !C20::representable(t, d) ) continue;
